@@ -156,6 +156,12 @@ impl SlotBlockData {
         self.leader_misbehaved = true;
         true
     }
+
+    /// Verification hook: whether the leader of this slot was flagged as misbehaving.
+    #[cfg(feature = "verif-hooks")]
+    pub(super) fn verif_leader_misbehaved(&self) -> bool {
+        self.leader_misbehaved
+    }
 }
 
 /// Returned value from [`BlockData::try_reconstruct_slice`]
